@@ -110,7 +110,7 @@ theorem C06_retriable_only_never_fails (hna : ∀ w i, c.env w i ≠ .appError) 
   · intro r hr hco
     simp only [List.mem_append] at hr
     have := hr.elim (inv.run r) (inv.zom r)
-    rw [hco] at this; simp [CoSt.clean] at this
+    rw [hco] at this; simp [CoSt.noAppErr] at this
   · intro o ho
     have hv := (C06_verdict h o ho).1
     rw [hv]
